@@ -76,11 +76,42 @@ func (s *c18shape) diskWith(slot *E) *E {
 	return setAt(parse(s.Skeleton), s.Slot, slot)
 }
 
-// authenticate materialises the shape on a real directory for every slot value,
-// scans it with the REAL core.Scan and the real ignorer, and demands that the
-// harness's scripted snapshot (disk.snapshotContent) is the same tree.
+// writeSlot is the user writing (or deleting) the file on a disk: like
+// "mkdir -p" + write, it creates missing parent directories.
+func writeSlot(tree *E, path string, v *E) *E {
+	if v != nil {
+		comps := strings.Split(path, "/")
+		for i := 1; i < len(comps); i++ {
+			p := strings.Join(comps[:i], "/")
+			if at(tree, p) == nil {
+				tree = setAt(tree, p, dir())
+			}
+		}
+	} else if at(tree, path) == nil {
+		return tree
+	}
+	return setAt(tree, path, v)
+}
+
+// authenticate materialises the shape on a real directory for every slot value
+// (with the ignored siblings, and - the bare variant - with only the parent
+// directories of the file), scans it with the REAL core.Scan and the real
+// ignorer, and demands that the harness's scripted snapshot
+// (disk.snapshotContent) is the same tree.
 func (s *c18shape) authenticate(t *testing.T) error {
+	type variant struct {
+		bare bool
+		slot *E
+	}
+	var variants []variant
 	for _, slot := range []*E{nil, file(1, false), file(1, true), file(2, false), file(2, true)} {
+		variants = append(variants, variant{false, slot})
+		if slot != nil {
+			variants = append(variants, variant{true, slot})
+		}
+	}
+	for _, v := range variants {
+		slot := v.slot
 		root := t.TempDir()
 		var mk func(e *E, p string) error
 		mk = func(e *E, p string) error {
@@ -109,6 +140,9 @@ func (s *c18shape) authenticate(t *testing.T) error {
 			return nil
 		}
 		tree := s.diskWith(slot)
+		if v.bare {
+			tree = writeSlot(dir(), s.Slot, slot)
+		}
 		if err := mk(tree, root); err != nil {
 			return err
 		}
@@ -158,6 +192,9 @@ type c18config struct {
 	Mode              string `json:"mode"`
 	PreservingIsAlpha bool   `json:"preserving_is_alpha"`
 	Shape             string `json:"shape"`
+	// OtherBare: the non-preserving disk starts as an empty root (no parent
+	// directories, no ignored siblings); the preserving disk has the skeleton.
+	OtherBare bool `json:"other_bare,omitempty"`
 }
 
 type c18event struct {
@@ -185,6 +222,9 @@ func (c c18case) key() string {
 	role := "preserving=beta"
 	if c.PreservingIsAlpha {
 		role = "preserving=alpha"
+	}
+	if c.OtherBare {
+		role += ":other-disk-starts-empty"
 	}
 	return fmt.Sprintf("c18ctrl:%s:%s:%s:%s", c.Shape, c.Mode, role, strings.Join(parts, ","))
 }
@@ -228,9 +268,10 @@ type c18result struct {
 	verdict  string
 	infra    string
 	archive  string // after the history
-	p, n     string // slot values after the history
-	changed  bool   // the last cycle changed a disk or the archive
-	requests int    // transitions requested in the last cycle
+	p, n     string // whole disks (preserving, other) after the history
+	stale    int
+	changed  bool // the last cycle changed a disk or the archive
+	requests int  // transitions requested in the last cycle
 	cycles   int
 }
 
@@ -285,6 +326,9 @@ func runC18(t *testing.T, root string, c c18case, logf func(string, ...any)) (re
 		if c.PreservingIsAlpha {
 			pd, nd, pside = w.alpha, w.beta, "alpha"
 		}
+		if c.OtherBare {
+			nd.tree = dir()
+		}
 		var archive *E
 		for i, ev := range c.History {
 			p, n := at(pd.tree, shape.Slot), at(nd.tree, shape.Slot)
@@ -292,8 +336,8 @@ func runC18(t *testing.T, root string, c c18case, logf func(string, ...any)) (re
 				found := false
 				for _, u := range c18userEvents(p, n) {
 					if u.ev == ev {
-						pd.tree = setAt(pd.tree, shape.Slot, u.p)
-						nd.tree = setAt(nd.tree, shape.Slot, u.n)
+						pd.tree = writeSlot(pd.tree, shape.Slot, u.p)
+						nd.tree = writeSlot(nd.tree, shape.Slot, u.n)
 						found = true
 						break
 					}
@@ -333,26 +377,33 @@ func runC18(t *testing.T, root string, c c18case, logf func(string, ...any)) (re
 			for _, call := range o.Calls {
 				res.requests += len(call.Changes)
 			}
-			res.changed = !deepEq(archive, o.Archive) || !deepEq(p, p2) || !deepEq(n, n2)
+			res.changed = !deepEq(archive, o.Archive) || !deepEq(o.AlphaBefore, o.AlphaAfter) || !deepEq(o.BetaBefore, o.BetaAfter)
 			archive = o.Archive
 		}
 		w.close()
+		res.stale = w.stale
 		if w.infra != "" {
 			res.infra = w.infra
 			return
 		}
 		res.archive = show(archive)
-		res.p, res.n = show(at(pd.tree, shape.Slot)), show(at(nd.tree, shape.Slot))
+		res.p, res.n = show(pd.tree), show(nd.tree)
 	})
 	return res
 }
 
-func c18configs() []c18config {
+// c18configs lists the configurations of a tier; thorough adds, for the shapes
+// whose file lives below directories, the variant in which the non-preserving
+// disk starts as an empty root.
+func c18configs(thorough bool) []c18config {
 	var out []c18config
 	for _, s := range c18shapes {
 		for _, m := range allModes {
 			for _, pa := range []bool{true, false} {
-				out = append(out, c18config{modeName(m), pa, s.Name})
+				out = append(out, c18config{Mode: modeName(m), PreservingIsAlpha: pa, Shape: s.Name})
+				if thorough && strings.Contains(s.Slot, "/") {
+					out = append(out, c18config{Mode: modeName(m), PreservingIsAlpha: pa, Shape: s.Name, OtherBare: true})
+				}
 			}
 		}
 	}
@@ -360,22 +411,27 @@ func c18configs() []c18config {
 }
 
 // c18worker runs the explicit-state search to closure for its share of the
-// configurations. State = (archive, slot on the preserving disk, slot on the
-// other disk); user events change the disks (harness only), the cycle event
-// replays the whole history through the real controller.
+// configurations. State = (archive, preserving disk, other disk); user events
+// change the file slot on a disk (harness only), the cycle event replays the
+// whole history through the real controller.
 func c18worker(t *testing.T, job *wJob, out *wOutput) {
 	root := scratch(t)
-	configs := c18configs()
+	configs := c18configs(job.Thorough)
 	for ci := job.Shard; ci < len(configs); ci += job.Shards {
 		cfg := configs[ci]
+		shape := shapeByName(cfg.Shape)
 		type node struct {
 			archive string
-			p, n    *E
+			p, n    *E // whole disks
 			path    []c18event
 		}
 		key := func(a string, p, n *E) string { return a + "|" + show(p) + "|" + show(n) }
-		seen := map[string]bool{key("nil", nil, nil): true}
-		frontier := []node{{"nil", nil, nil, nil}}
+		p0, n0 := shape.diskWith(nil), shape.diskWith(nil)
+		if cfg.OtherBare {
+			n0 = dir()
+		}
+		seen := map[string]bool{key("nil", p0, n0): true}
+		frontier := []node{{"nil", p0, n0, nil}}
 		for len(frontier) > 0 {
 			var next []node
 			for _, nd := range frontier {
@@ -390,19 +446,20 @@ func c18worker(t *testing.T, job *wJob, out *wOutput) {
 						next = append(next, node{a, p, n, append(append([]c18event{}, nd.path...), ev)})
 					}
 				}
-				for _, u := range c18userEvents(nd.p, nd.n) {
+				for _, u := range c18userEvents(at(nd.p, shape.Slot), at(nd.n, shape.Slot)) {
 					out.addCase("", false, "")
-					push(nd.archive, u.p, u.n, u.ev)
+					push(nd.archive, writeSlot(nd.p, shape.Slot, u.p), writeSlot(nd.n, shape.Slot, u.n), u.ev)
 				}
 				c := c18case{cfg, append(append([]c18event{}, nd.path...), c18event{Kind: "cycle"})}
 				res := runC18(t, root, c, nil)
 				out.Extra["traces"]++
 				out.Extra["cycles_on_real_code"] += int64(res.cycles)
+				out.Extra["requests_not_matching_disk"] += int64(res.stale)
 				if res.infra != "" {
 					out.fail("%s: %s", c.key(), res.infra)
 					return
 				}
-				stateKey := fmt.Sprintf("%s:%s:%v:%s", cfg.Shape, cfg.Mode, cfg.PreservingIsAlpha, key(nd.archive, nd.p, nd.n))
+				stateKey := fmt.Sprintf("%s:%s:%v:%v:%s", cfg.Shape, cfg.Mode, cfg.PreservingIsAlpha, cfg.OtherBare, key(nd.archive, nd.p, nd.n))
 				if res.verdict != "" {
 					out.addCase(stateKey, true, "violation")
 					out.violate(c.key(), res.verdict, c)
@@ -419,9 +476,7 @@ func c18worker(t *testing.T, job *wJob, out *wOutput) {
 				if len(nd.path) >= 3 && res.requests > 0 {
 					out.sample(c, 1)
 				}
-				var p2, n2 *E
-				p2, n2 = parse(res.p), parse(res.n)
-				push(res.archive, p2, n2, c18event{Kind: "cycle"})
+				push(res.archive, parse(res.p), parse(res.n), c18event{Kind: "cycle"})
 			}
 			frontier = next
 		}
@@ -471,7 +526,7 @@ func TestC18Controller(t *testing.T) {
 	r.Rule("explicit-state search to closure, per configuration {" + strings.Join(names, "; ") + "} x 4 synchronization modes x {preserving endpoint is alpha, is beta}, portable permissions, through the REAL Manager/controller with scripted in-memory endpoints whose snapshots equal what the real core.Scan reports for the same tree and ignores (verified at start): state = (saved archive, file slot on the preserving disk in {nil, F1, F1x, F2, F2x}, slot on the other disk in {nil, F1, F2}); events: write digest d on either disk, chmod +x/-x and delete on the preserving disk, delete on the other, one real cycle (Manager.Flush); every cycle transition replays its whole history through the real controller; a case = one (state, event); non-trivial = a cycle that changed a disk or the archive")
 	r.Assume("one file slot, two digests; a non-preserving filesystem reports executable=false for every file and drops the bit of files written to it",
 		"transitions are applied exactly and reported faithfully (outcome mixes are C05's leg); ignored siblings are constant")
-	deadline := vr.Deadline(50*time.Second, 8*time.Minute)
+	deadline := scaledDeadline(50*time.Second, 8*time.Minute)
 	outs := runWorkers(t, "c18", vr.Workers(), deadline, nil)
 	extra := mergeWorkers(r, outs, func(v wViolation) bool {
 		var c c18case
@@ -483,10 +538,11 @@ func TestC18Controller(t *testing.T) {
 	r.Set("transitions", extra["transitions"])
 	r.Set("traces_validated_against_impl", extra["traces"])
 	r.Set("cycles_on_real_code", extra["cycles_on_real_code"])
-	r.Set("configurations", len(c18configs()))
+	r.Set("configurations", len(c18configs(vr.Thorough())))
+	r.Set("requests_not_matching_disk", extra["requests_not_matching_disk"])
 	r.Set("explanation_traces", "every cycle transition of the search replays its whole event history through the real Manager/controller; user-event transitions are harness-only")
 	if n := extra["capped_states"]; n > 0 {
 		r.NotExhaustive(fmt.Sprintf("wall budget reached: %d states were not expanded", n))
 	}
-	r.Sample(c18case{c18config{"two-way-safe", false, "docker/phantom-chain"}, []c18event{{"write-P", 1}, {"chmod+x-P", 0}, {Kind: "cycle"}, {Kind: "cycle"}}})
+	r.Sample(c18case{c18config{Mode: "two-way-safe", Shape: "docker/phantom-chain"}, []c18event{{"write-P", 1}, {"chmod+x-P", 0}, {Kind: "cycle"}, {Kind: "cycle"}}})
 }
